@@ -83,7 +83,8 @@ def install():
 #   open(path, "rb")                    -> same, a byte handle whose read() is bytes_of(path)
 #   io.TextIOWrapper(bytes_io, encoding=e) -> a NEW text handle over the lines of the byte stream, READ FROM ITS CURRENT POSITION:
 #                                          the model demands (named safety obligation) that the stream is at position 0
-#   bytes_io.read() -> bytes_of(stream), leaves the position at the end; bytes_io.seek(0, 0) rewinds; other seeks are refused
+#   bytes_io.read() -> bytes_of(stream), leaves the position at the end; bytes_io.read(n) -> first_bytes_of(stream, n), an abstract value of
+#                                          its own, leaves the position inside; bytes_io.seek(0, 0) rewinds; other seeks are refused
 #   handle.close() is logged; a handle used as a context manager returns itself and closes on exit without suppressing
 #   chardet.detect(data) -> {"encoding": some non-empty abstract string | None, "confidence": some real in [0, 1]}
 # Every call is recorded in eng.ghost["io"] (a list of event dicts) so that contracts can say WHICH handle was opened /
@@ -93,7 +94,7 @@ import io as _io  # noqa: E402
 import z3  # noqa: E402
 
 from .engine import ProgExc, Unsupported  # noqa: E402
-from .values import Opaque, PDict, Sym, fresh, fresh_name  # noqa: E402
+from .values import Opaque, PDict, Sym, fresh, fresh_name, to_z3  # noqa: E402
 
 _I, _B, _R = z3.IntSort(), z3.BoolSort(), z3.RealSort()
 NL = z3.Function("n_lines", _I, _I)
@@ -148,49 +149,404 @@ def _ctx_exit(eng, recv, args, kwargs):
     return False
 
 
-def _line_iter(src):
-    def it(eng, recv):
-        def getter(k):
-            if eng.branch(eng.sbool(DECERR(src, k.z))):
-                raise ProgExc(UnicodeDecodeError, "codec can't decode")
-            return LINE_WRAPPER[0](LINE(src, k.z))
+# ---------------------------------------------------------------------------------------------------------------------
+# Reading LINES from a text handle.  The handle has a ghost cursor c = number of lines of its source consumed so far
+# (0 <= c <= n_lines(src)); every documented way of getting lines moves it:
+#   iteration / iter(f) / enumerate(f, start) / list(f)   lines c .. n-1, lazily: delivering line k may raise UnicodeDecodeError
+#   next(f)                        line c (StopIteration at the end);   f.readline() : line c, or "" at the end (a line is never empty)
+#   f.readlines() / readlines(hint <= 0 | None)   the list of ALL remaining lines
+#   f.readlines(hint > 0)          a PREFIX of the remaining lines: the shortest one whose total size EXCEEDS `hint` characters -- the
+#                                  model: P lines, 1 <= P <= min(rest, hint + 1) when anything is left (line sizes are not modelled, a
+#                                  line has at least one character), i.e. possibly FEWER than all of them
+#   itertools.islice(f, k)         the next min(k, rest) lines, lazily
+#   f.read() / read(-1) / read(None)  the remaining text: .splitlines(keepends=True) are the remaining lines, .splitlines() /
+#                                  .split("\n") the lines WITHOUT their line break (other abstract strings; split adds the empty piece
+#                                  behind a final line break)
+#   f.read(n > 0)                  at most n characters: .splitlines(True) = some complete lines (possibly none, possibly not all) and
+#                                  possibly one incomplete piece; afterwards the handle stands inside a line (only read(n) goes on)
+#   f.seek(0) / seek(0, 0)         c := 0
+# A bulk read (readlines / read) decodes everything it returns: it raises UnicodeDecodeError iff delivering one of those lines would.
+# Every sequence handed out is logged as an io event  dict(op="lines", handle, how, start, count)  and remembered in the cursor
+# (`seq_start`), so that a contract can say WHICH lines of the source a loop over that sequence has dealt with.
+IO_LINES = ("io-model (line reading): a text handle has a ghost cursor (lines consumed); iteration / next / readline / readlines() / read() + "
+            "splitlines(keepends=True) / itertools.islice deliver the lines from the cursor on, in order, each exactly once; readlines(hint > 0) "
+            "delivers a non-empty PREFIX of them (at most `hint` + 1 lines), not necessarily all; a line is never the empty string; a bulk read raises "
+            "UnicodeDecodeError iff one of the lines it covers does; read().splitlines(keepends=True) = the lines ASSUMES a text without the separators "
+            "only str.splitlines knows (\\v \\f \\x1c-\\x1e \\x85 \\u2028 \\u2029, a lone \\r on a non-translating handle) "
+            "(pyvc/ext_C01.py, cross-check tools/xcheck_io_lines.py)")
+CHOMP = z3.Function("line_without_its_line_break", _I, _I)
+ENDS_NL = z3.Function("text_ends_with_a_line_break", _I, _B)
 
-        eng.assume(NL(src) >= 0)
+
+class LineCursor:
+    """ghost position of a text handle, counted in lines of its source"""
+
+    def __init__(self, src):
+        self.src = src
+        self.z = z3.IntVal(0)
+        self.seq_start = z3.IntVal(0)  # where the most recently handed-out line sequence starts
+        self.iterating = False         # a lazy iteration over the handle is under way
+        self.in_line = False           # a read(n) left the handle inside a line
+
+    def __pyvc_havoc__(self, eng):
+        self.z = z3.Const(fresh_name("lines_consumed"), _I)
+        eng.assume(z3.And(self.z >= 0, self.z <= NL(self.src)))
+
+
+class Cursors:
+    """the cursors of the text handles a frame can reach (for a loop contract's `modifies`)"""
+
+    def __init__(self, cs):
+        self.cs = cs
+
+    def __pyvc_havoc__(self, eng):
+        for c in self.cs:
+            c.__pyvc_havoc__(eng)
+
+
+def handles_in(variables):
+    from .values import Obj
+
+    out = []
+    for v in variables.values():
+        for x in ([v] + list(v.fields.values()) if isinstance(v, Obj) else [v]):
+            if isinstance(x, Opaque) and isinstance(getattr(x, "cursor", None), LineCursor) and not any(x is y for y in out):
+                out.append(x)
+    return out
+
+
+def _ready(cur, what):
+    if cur.iterating:
+        raise Unsupported(f"{what} on a text handle while an iteration over it is under way")
+    if cur.in_line:
+        raise Unsupported(f"{what} on a text handle that a read(n) left inside a line")
+
+
+def _start(eng, cur):
+    eng.assumptions.add(IO_LINES)
+    eng.assume(z3.And(NL(cur.src) >= 0, cur.z >= 0, cur.z <= NL(cur.src)))
+    return cur.z
+
+
+def _deliver(eng, src, kz):
+    """line k of the source, as iteration / next / readline deliver it"""
+    if eng.branch(eng.sbool(DECERR(src, kz))):
+        raise ProgExc(UnicodeDecodeError, "codec can't decode")
+    eng.assume(LINE(src, kz) != 0)
+    return LINE_WRAPPER[0](LINE(src, kz))
+
+
+def _decode_all(eng, src, lo, hi):
+    """a bulk read of the lines lo .. hi-1 raises iff delivering one of them does"""
+    j = z3.Const(fresh_name("undecodable_line"), _I)
+    if eng.branch(Sym(z3.Const(fresh_name("some_line_of_the_bulk_read_is_undecodable"), _B), "bool")):
+        eng.assume(z3.And(j >= lo, j < hi, DECERR(src, j)))
+        raise ProgExc(UnicodeDecodeError, "codec can't decode")
+    q = z3.Int(fresh_name("q"))
+    eng.assume(z3.ForAll([q], z3.Implies(z3.And(q >= lo, q < hi), z3.Not(DECERR(src, q))), patterns=[DECERR(src, q)]))
+
+
+def line_list(eng, src, start, count, chomp=False, name="lines"):
+    """the list [line(src, start), ..., line(src, start + count - 1)] (elements wrapped like the lines of an iteration)"""
+    from .values import PList
+
+    i = z3.Int(fresh_name("li"))
+    p = PList.fresh("ref", n=z3.simplify(count), name=name)
+    p.cols = [z3.Lambda([i], CHOMP(LINE(src, start + i)) if chomp else LINE(src, start + i))]
+    p.proto = {"__wrap__": LINE_WRAPPER[0]}
+    return p
+
+
+class LineIter:
+    """lazy iteration over the lines of a handle from its cursor on (at most `limit` of them)"""
+
+    def __init__(self, handle, limit=None):
+        self.handle, self.limit = handle, limit
+
+    def __pyvc_sequence__(self, eng):
+        cur, src = self.handle.cursor, self.handle.src
+        _ready(cur, "iteration")
+        c0 = _start(eng, cur)
+        n = NL(src) - c0
+        if self.limit is not None:
+            lim = z3.If(to_z3(self.limit, "int") < 0, z3.IntVal(0), to_z3(self.limit, "int"))
+            n = z3.If(lim < n, lim, n)
+        n = z3.simplify(n)
         eng.assumptions.add(IO_ITER)
-        return NL(src), getter
+        cur.iterating, cur.seq_start, self.c0, self.n = True, c0, c0, n
+        events(eng).append(dict(op="lines", handle=self.handle, how="iteration" if self.limit is None else "islice", start=c0, count=n))
+        cur.z = z3.simplify(c0 + n)  # where the handle stands when the iteration has run to its end
+        return Sym(n, "int"), (lambda k: _deliver(eng, src, z3.simplify(c0 + k.z)))
 
+    def __pyvc_iter_done__(self, eng, count):
+        """the consumer stopped after `count` items (all of them, or a `break`)"""
+        cur = self.handle.cursor
+        cur.iterating = False
+        cur.z = z3.simplify(self.c0 + to_z3(count, "int"))
+
+
+def _iter_seq(eng, recv):
+    it = LineIter(recv)
+    recv.last_iter = it
+    return it.__pyvc_sequence__(eng)
+
+
+def _iter_done(eng, recv, count):
+    it = getattr(recv, "last_iter", None)
+    if it is not None:
+        it.__pyvc_iter_done__(eng, count)
+
+
+def _next(eng, recv, args, kwargs):
+    cur = recv.cursor
+    _ready(cur, "next()")
+    c = _start(eng, cur)
+    if not eng.branch(eng.sbool(c < NL(recv.src))):
+        raise ProgExc(StopIteration, "")
+    line = _deliver(eng, recv.src, c)
+    cur.z = z3.simplify(c + 1)
+    events(eng).append(dict(op="readline", handle=recv, at=c))
+    return line
+
+
+def _readline(eng, recv, args, kwargs):
+    if kwargs or (args and not (len(args) == 1 and (args[0] is None or (isinstance(args[0], int) and args[0] < 0)))):
+        raise Unsupported("readline(size) with a size limit")
+    cur = recv.cursor
+    _ready(cur, "readline()")
+    c = _start(eng, cur)
+    if not eng.branch(eng.sbool(c < NL(recv.src))):
+        return LINE_WRAPPER[0](z3.IntVal(0))  # the empty string: end of file
+    line = _deliver(eng, recv.src, c)
+    cur.z = z3.simplify(c + 1)
+    events(eng).append(dict(op="readline", handle=recv, at=c))
+    return line
+
+
+def _readlines(eng, recv, args, kwargs):
+    hint = args[0] if args else kwargs.get("hint", -1)
+    if len(args) > 1 or set(kwargs) - {"hint"}:
+        raise Unsupported("readlines arguments")
+    cur, src = recv.cursor, recv.src
+    _ready(cur, "readlines()")
+    c = _start(eng, cur)
+    rest = NL(src) - c
+    if hint is None or (isinstance(hint, int) and hint <= 0):
+        count = rest
+    else:
+        if not isinstance(hint, int) and kind_of_int(hint) is None:
+            raise Unsupported("readlines(hint) with a non-integer hint")
+        hz = to_z3(hint, "int")
+        count = z3.Const(fresh_name("lines_returned_by_readlines_hint"), _I)
+        eng.assume(z3.If(hz <= 0, count == rest, z3.And(count >= 0, count <= rest, count <= hz + 1, z3.Implies(rest > 0, count >= 1))))
+    _decode_all(eng, src, c, c + count)
+    cur.z, cur.seq_start = z3.simplify(c + count), c
+    events(eng).append(dict(op="lines", handle=recv, how="readlines", start=c, count=z3.simplify(count), hint=hint))
+    return line_list(eng, src, c, count)
+
+
+def kind_of_int(v):
+    return "int" if isinstance(v, Sym) and v.kind == "int" else None
+
+
+class TextRead:
+    """what f.read(..) returned: the text of the lines start .. start+count-1 of the source, plus -- after a read(n) that stopped inside
+    a line -- one incomplete piece.  Only the ways of cutting it into lines are modelled."""
+
+    def __init__(self, handle, start, count, partial=None):
+        self.handle, self.start, self.count, self.partial = handle, start, count, partial
+
+    def __pyvc_truth__(self, eng):
+        if self.partial is not None:
+            return True
+        return eng.sbool(self.count > 0)
+
+    def __pyvc_isinstance__(self, cls):
+        return cls is str
+
+    def _lines(self, eng, chomp, how):
+        from .values import PList
+
+        src, cur = self.handle.src, self.handle.cursor
+        cur.seq_start = self.start
+        events(eng).append(dict(op="lines", handle=self.handle, how=how, start=self.start, count=z3.simplify(self.count)))
+        lst = line_list(eng, src, self.start, self.count, chomp=chomp)
+        if self.partial is not None:  # complete lines, then the incomplete piece
+            i = z3.Int(fresh_name("li"))
+            body = z3.Select(lst.cols[0], i)
+            lst.cols = [z3.Lambda([i], z3.If(i < self.count, body, self.partial))]
+            lst.n = z3.simplify(self.count + 1)
+        return lst
+
+    def __pyvc_getattr__(self, eng, name):
+        if name == "splitlines":
+            def splitlines(e, r, a, k):
+                keep = a[0] if a else k.get("keepends", False)
+                if not isinstance(keep, (bool, int)) or len(a) > 1 or set(k) - {"keepends"}:
+                    raise Unsupported("splitlines arguments")
+                return self._lines(e, not keep, "read+splitlines(keepends=True)" if keep else "read+splitlines()")
+            return models.NativeMethod(splitlines, self, name)
+        if name == "split":
+            def split(e, r, a, k):
+                if k or len(a) != 1 or a[0] != "\n":
+                    raise Unsupported("split of a file's text other than split('\\n')")
+                if self.partial is not None:
+                    raise Unsupported("split('\\n') of a text that ends inside a line")
+                # pieces = the lines without their line break, and one more (empty) piece behind a final line break (or for an empty text)
+                lst = self._lines(e, True, "read+split('\\n')")
+                i = z3.Int(fresh_name("li"))
+                body = z3.Select(lst.cols[0], i)
+                extra = z3.Or(self.count == 0, ENDS_NL(self.handle.src))
+                lst.cols = [z3.Lambda([i], z3.If(i < self.count, body, z3.IntVal(0)))]
+                lst.n = z3.simplify(self.count + z3.If(extra, 1, 0))
+                return lst
+            return models.NativeMethod(split, self, name)
+        raise Unsupported(f"str.{name} of the text returned by read() has no model")
+
+
+def _read(eng, recv, args, kwargs):
+    if kwargs or len(args) > 1:
+        raise Unsupported("read arguments")
+    size = args[0] if args else -1
+    cur, src = recv.cursor, recv.src
+    if cur.iterating:
+        raise Unsupported("read() on a text handle while an iteration over it is under way")
+    eng.assumptions.add(IO_LINES)
+    if size is None or (isinstance(size, int) and size < 0):
+        _ready(cur, "read()")
+        c = _start(eng, cur)
+        _decode_all(eng, src, c, NL(src))
+        cur.z = NL(src)
+        events(eng).append(dict(op="read", handle=recv, start=c))
+        return TextRead(recv, c, z3.simplify(NL(src) - c))
+    if not (isinstance(size, int) or kind_of_int(size)):
+        raise Unsupported("read(n) with a non-integer size")
+    if isinstance(size, int) and size == 0:
+        return ""
+    # at most n characters: some complete lines and possibly an incomplete piece; "" only at the end of the text
+    if cur.in_line:  # not the first chunk: where it starts inside the text is not tracked
+        c, count = z3.Const(fresh_name("chunk_start"), _I), z3.IntVal(0)
+        if not eng.branch(Sym(z3.Const(fresh_name("more_text_left"), _B), "bool")):
+            return ""
+        return TextRead(recv, c, count, partial=z3.Const(fresh_name("piece"), _I))
+    c = _start(eng, cur)
+    if not eng.branch(eng.sbool(c < NL(src))):
+        return ""
+    count = z3.Const(fresh_name("complete_lines_in_chunk"), _I)
+    eng.assume(z3.And(count >= 0, count <= NL(src) - c, count <= to_z3(size, "int")))
+    _decode_all(eng, src, c, c + count)
+    events(eng).append(dict(op="read", handle=recv, start=c, size=size))
+    if eng.branch(Sym(z3.Const(fresh_name("chunk_ends_at_a_line_boundary"), _B), "bool")):
+        eng.assume(count >= 1)
+        cur.z = z3.simplify(c + count)
+        return TextRead(recv, c, count)
+    cur.in_line = True
+    cur.z = z3.simplify(c + count)
+    piece = z3.Const(fresh_name("piece"), _I)
+    eng.assume(piece != 0)
+    return TextRead(recv, c, count, partial=piece)
+
+
+def _seek(eng, recv, args, kwargs):
+    if kwargs or tuple(args) not in ((0,), (0, 0)):
+        raise Unsupported("text handle seek other than seek(0) / seek(0, 0)")
+    cur = recv.cursor
+    if cur.iterating:
+        raise Unsupported("seek on a text handle while an iteration over it is under way")
+    cur.z, cur.in_line = z3.IntVal(0), False
+    events(eng).append(dict(op="seek", handle=recv))
+    return 0
+
+
+def _list_of(eng, recv):
+    return _readlines(eng, recv, [], {})
+
+
+def _iter_sentinel(eng, recv, method, sentinel):
+    """iter(f.readline, ""): readline until it returns the empty string, i.e. the lines from the cursor on"""
+    if method != "readline" or not (isinstance(sentinel, str) and sentinel == ""):
+        raise Unsupported(f"iter(handle.{method}, sentinel) other than iter(f.readline, '')")
+    it = LineIter(recv)
+    recv.last_iter = it
     return it
 
 
-def text_handle(src, name="text_handle", extra=None):
-    """a text handle delivering the lines of source `src` (z3 Int term); `.src` names the source"""
-    proto = {"__iter_seq__": _line_iter(src), "close": _close, ".closed": _closed, "__enter__": _ctx_enter, "__exit__": _ctx_exit,
-             "__isinstance__": (_io.TextIOBase,)}
+def _line_proto(extra=None):
+    proto = {"__iter_seq__": _iter_seq, "__iter_done__": _iter_done, "__next__": _next, "__list__": _list_of, "__iter_sentinel__": _iter_sentinel,
+             "readline": _readline, "readlines": _readlines, "read": _read, "seek": _seek,
+             "readable": lambda eng, recv, a, k: True, "__iter__": lambda eng, recv, a, k: recv,
+             "close": _close, ".closed": _closed, "__enter__": _ctx_enter, "__exit__": _ctx_exit, "__isinstance__": (_io.TextIOBase,)}
     proto.update(extra or {})
-    h = Opaque(z3.Const(fresh_name(name), _I), proto)
+    return proto
+
+
+def text_handle(src, name="text_handle", extra=None):
+    """a text handle delivering the lines of source `src` (z3 Int term); `.src` names the source, `.cursor` is its ghost position"""
+    h = Opaque(z3.Const(fresh_name(name), _I), _line_proto(extra))
     h.src = src
+    h.cursor = LineCursor(src)
     return h
 
 
 def text_stream(name="text_stream", encoding="utf-8"):
-    """a caller-supplied text stream (StringIO, an open text file): an abstract line source that is its own handle"""
+    """a caller-supplied text stream (StringIO, an open text file): an abstract line source that is its own handle; its lines are
+    what it delivers from the position the caller left it at"""
     z = z3.Const(fresh_name(name), _I)
-    proto = {"__iter_seq__": _line_iter(z), "close": _close, ".closed": _closed, "__enter__": _ctx_enter, "__exit__": _ctx_exit,
-             "__isinstance__": (_io.TextIOBase,), ".encoding": lambda eng, v: encoding}
-    h = Opaque(z, proto)
+    h = Opaque(z, _line_proto({".encoding": lambda eng, v: encoding}))
     h.src = z
+    h.cursor = LineCursor(z)
     return h
+
+
+def _islice(prev):
+    def model(eng, args, kwargs):
+        if args and isinstance(args[0], Opaque) and isinstance(getattr(args[0], "cursor", None), LineCursor) and not kwargs:
+            if len(args) == 2:
+                stop = args[1]
+            elif len(args) in (3, 4) and args[1] in (0, None) and (len(args) == 3 or args[3] in (1, None)):
+                stop = args[2]
+            else:
+                raise Unsupported("itertools.islice of a text handle with a start / step")
+            it = LineIter(args[0], None if stop is None else stop)
+            args[0].last_iter = it
+            return it
+        if prev is None:
+            raise Unsupported("itertools.islice is modelled for text handles only")
+        return prev(eng, args, kwargs)
+
+    return model
+
+
+BYTES_PREFIX = z3.Function("first_bytes_of", _I, _I, _I)
+
+
+def _whole(args, kwargs):
+    """read() / read(-1) / read(None): everything;  read(n): a size limit (anything else is refused)"""
+    if kwargs or len(args) > 1:
+        raise Unsupported("read arguments")
+    if not args or args[0] is None or (isinstance(args[0], int) and not isinstance(args[0], bool) and args[0] < 0):
+        return True
+    if isinstance(args[0], bool) or not (isinstance(args[0], int) or (isinstance(args[0], Sym) and args[0].kind == "int")):
+        raise Unsupported("read(n) with a non-integer size")
+    return False
 
 
 def byte_stream(name="byte_stream"):
     """a caller-supplied io.BytesIO: abstract bytes; only read() (everything) and seek(0, 0) are modelled"""
     def read(eng, recv, args, kwargs):
-        if args or kwargs:
-            raise Unsupported("BytesIO.read(n)")
         eng.assumptions.add(IO_BYTES)
-        _positions(eng)[recv.z.get_id()] = "end"
-        events(eng).append(dict(op="read", handle=recv))
-        return Sym(BYTES_OF(recv.z), "ref")
+        if _whole(args, kwargs):
+            if position(eng, recv) != 0:
+                raise Unsupported("BytesIO.read() of a stream that is not at its start")
+            _positions(eng)[recv.z.get_id()] = "end"
+            events(eng).append(dict(op="read", handle=recv))
+            return Sym(BYTES_OF(recv.z), "ref")
+        # read(n): the first n bytes (an abstract value of its own: whatever is computed from it is not computed from all the bytes)
+        if position(eng, recv) != 0:
+            raise Unsupported("BytesIO.read(n) of a stream that is not at its start")
+        _positions(eng)[recv.z.get_id()] = "inside"
+        events(eng).append(dict(op="read", handle=recv, size=args[0]))
+        return Sym(BYTES_PREFIX(recv.z, to_z3(args[0], "int")), "ref")
 
     def seek(eng, recv, args, kwargs):
         if kwargs or tuple(args) not in ((0,), (0, 0)):
@@ -226,8 +582,15 @@ def _open_read(prev):
         kw = {k: v for k, v in kwargs.items() if k != "mode"}
         if mode == "rb":
             def read(e, recv, a, k):
-                if a or k:
-                    raise Unsupported("file.read(n)")
+                if not _whole(a, k):
+                    if getattr(recv, "was_read", False):
+                        raise Unsupported("a second read of a byte handle")
+                    recv.was_read = True
+                    events(e).append(dict(op="read", handle=recv, size=a[0]))
+                    return Sym(BYTES_PREFIX(name.z, to_z3(a[0], "int")), "ref")
+                if getattr(recv, "was_read", False):
+                    raise Unsupported("a second read of a byte handle")
+                recv.was_read = True
                 events(e).append(dict(op="read", handle=recv))
                 return Sym(BYTES_OF(name.z), "ref")
 
@@ -283,3 +646,10 @@ def install_io(line_wrapper=None):
         E[open] = m
     E[_io.TextIOWrapper] = _text_io_wrapper
     E[chardet.detect] = _chardet_detect
+    import itertools
+
+    cur = E.get(itertools.islice)
+    if not getattr(cur, "_ext_c01", False):
+        m = _islice(cur)
+        m._ext_c01 = True
+        E[itertools.islice] = m
